@@ -12,6 +12,7 @@ Product mode.
    sequences over Q; pairs not in general position are filtered (counted).
  * paths: polylines x Bezier chains, expected count = sum of exact pair counts.
 """
+import cmath
 import itertools
 import math
 
@@ -66,11 +67,13 @@ def call_intersect(A, B, how):
     return bezier_intersections(a, b, L, 1e-10, 1e-10)
 
 
-def check_constructed(aname, bname, tA, tB, alpha, scale, acc, how='method'):
+def check_constructed(aname, bname, tA, tB, alpha, scale, acc, how='method', scale_b=None):
     A = AB.make(aname, scale)
-    B = isect.place(bname, tB, A, tA, alpha, scale)
+    B = isect.place(bname, tB, A, tA, alpha, scale if scale_b is None else scale_b)
     ka, kb = kind(A), kind(B)
     case = {'what': 'constructed', 'A': aname, 'B': bname, 'tA': tA, 'tB': tB, 'alpha': alpha, 'scale': scale}
+    if scale_b is not None:
+        case['scale_b'] = scale_b
     if ka == 'A' and kb == 'A' and not (isect.is_circ_unrot(A) and isect.is_circ_unrot(B)):
         acc.filt('arc_arc_general_solver_excluded')
         return
@@ -96,6 +99,8 @@ def check_constructed(aname, bname, tA, tB, alpha, scale, acc, how='method'):
     sig = {'pair': pair}
     if how != 'method':
         sig['call'] = how
+    if scale_b is not None:
+        sig['sizes'] = 'very_different'
     if not 0.01 <= scale <= 1000:
         sig['scale'] = 'tiny' if scale < 1 else 'huge'
     if ka == 'A' or kb == 'A':
@@ -110,6 +115,39 @@ def check_constructed(aname, bname, tA, tB, alpha, scale, acc, how='method'):
         acc.violation('crossing_missed' if not hits else 'crossing_reported_more_than_once', sig, case,
                       observed=[list(map(float, h)) for h in r[1]][:12], expected='one pair within 1e-4 of (%r, %r)' % (tA, tB),
                       detail='%d reported in total, %d near the constructed crossing' % (len(r[1]), len(hits)))
+
+
+def check_single_segment_paths(acc, only=None):
+    """paths that consist of ONE segment - among them a single Bezier that is a closed loop (start == end) - crossed by
+    a line path: Path.intersect reports what the segment solver reports for the pair (the segment families decide that
+    one), every crossing once"""
+    for name in ('C_teardrop', 'C_loop', 'C_arch', 'Q_generic', 'A_ellipse_3to1', 'L_diagonal'):
+        seg = AB.make(name)
+        xs = [seg.point(k / 40.0) for k in range(41)]
+        cx = sum(p.real for p in xs) / len(xs)
+        cy = sum(p.imag for p in xs) / len(xs)
+        ext = max(abs(p - complex(cx, cy)) for p in xs)
+        for ang in (17.0, 75.0, 140.0):
+            for off in (0.0, 0.21, -0.33):
+                d = cmath.exp(1j * math.radians(ang))
+                c0 = complex(cx, cy) + 1j * d * off * ext
+                L = Line(c0 - 2.1 * ext * d, c0 + 1.9 * ext * d)
+                case = {'what': 'single_segment_path', 'shape': name, 'angle': ang, 'offset': off}
+                if only is not None and only != case:
+                    continue
+                want = outcome(lambda: seg.intersect(L))
+                if want[0] != 'ok':
+                    continue
+                for order in ('path_first', 'line_first'):
+                    p1, p2 = (Path(AB.make(name)), Path(L)) if order == 'path_first' else (Path(L), Path(AB.make(name)))
+                    r = outcome(lambda: p1.intersect(p2))
+                    acc.case(dict(case, order=order), cls='single_segment_path/%s/%d' % (name[0], min(len(want[1]), 3)), nontrivial=len(want[1]) > 0)
+                    sig = {'pair': 'paths', 'single_segment': name[0], 'closed_loop': seg.start == seg.end}
+                    if r[0] != 'ok':
+                        acc.violation('intersect_raises', dict(sig, exc=r[1]), dict(case, order=order), observed=r)
+                    elif len(r[1]) != len(want[1]):
+                        acc.violation('crossing_missed' if len(r[1]) < len(want[1]) else 'crossing_reported_more_than_once', sig, dict(case, order=order),
+                                      observed=len(r[1]), expected='%d crossings, as the segment solver reports for this pair' % len(want[1]))
 
 
 AXIS_TILTS = [0.0, 1e-14, 1e-12, 1e-10, 1e-8, 1e-7, 1e-6, 1e-5, 2.0 ** -12, 1e-3]
@@ -279,6 +317,7 @@ def shards(tier, seed):
     out.append({'what': 'paths'})
     out.append({'what': 'circles'})
     out.append({'what': 'axis_lines'})
+    out.append({'what': 'single_segment_paths'})
     out += [{'what': 'grid', 'size': list(sz), 'kinds': k, 'long': lg}
             for sz in (isect.GRID_SIZES_QUICK if tier == 'quick' else isect.GRID_SIZES_THOROUGH)
             for k in (('L',) if sz[0] * sz[1] > 1100 else ('L', 'LQC')) for lg in (False, True, 'over_zigzag', 'far_fine')]
@@ -304,6 +343,11 @@ def run_shard(desc, tier, seed):
         # pairs solved in closed form / by polynomial roots (a Line with a Line or a Bezier) have no
         # absolute tolerance to tune: they must work at any drawing scale
         ka, kb = desc['A'][0], desc['B'][0]
+        # a long stroke crossed by a very short one (and the reverse): sizes 1e9 apart
+        if 'L' in (ka, kb) and ka in 'LQC' and kb in 'LQC':
+            for sa, sb in ((1e6, 1e-3), (1e-3, 1e6), (1e3, 1e-6), (1.0, 1e-9)):
+                for tA, tB, al in itertools.product(tp['tA'][:2], tp['tB'][:1], tp['alpha'][:3]):
+                    check_constructed(desc['A'], desc['B'], tA, tB, al, sa, acc, scale_b=sb)
         if 'L' in (ka, kb) and ka in 'LQC' and kb in 'LQC':
             for sc in tp['line_scales']:
                 for tA, tB, al in itertools.product(tp['tA'], tp['tB'], tp['alpha']):
@@ -315,6 +359,8 @@ def run_shard(desc, tier, seed):
                     check_circles(R, bs, tA, tB, al, acc)
     elif desc['what'] == 'exact':
         check_exact(desc['B'], desc['rot'], tp['lat'], acc)
+    elif desc['what'] == 'single_segment_paths':
+        check_single_segment_paths(acc)
     elif desc['what'] == 'axis_lines':
         check_axis_lines(acc)
     elif desc['what'] == 'grid':
@@ -339,6 +385,10 @@ def space(tier, seed):
 
 def replay(case):
     acc = core.ReplayAcc()
+    if case['what'] == 'single_segment_path':
+        check_single_segment_paths(acc, only={k: v for k, v in case.items() if k != 'order'})
+        acc.vlist = [v for v in acc.vlist if v['case'].get('order') == case.get('order')]
+        return acc.vlist
     if case['what'] == 'axis_lines':
         c = {k: v for k, v in case.items() if k != 'order'}
         check_axis_lines(acc, only=c)
@@ -350,7 +400,7 @@ def replay(case):
         check_circles(case['R'], case['bscale'], case['tA'], case['tB'], case['alpha'], acc)
         acc.vlist = [v for v in acc.vlist if v['case'].get('order') == case.get('order')]
     elif case['what'] == 'constructed':
-        check_constructed(case['A'], case['B'], case['tA'], case['tB'], case['alpha'], case['scale'], acc, how=case.get('call', 'method'))
+        check_constructed(case['A'], case['B'], case['tA'], case['tB'], case['alpha'], case['scale'], acc, how=case.get('call', 'method'), scale_b=case.get('scale_b'))
     elif case['what'] == 'exact':
         check_exact(case['B'], case['rot'], 0, acc, only=None) if False else None
         B = AB.make(case['B'], rot=case['rot'])
